@@ -31,7 +31,7 @@ def strategy(tier):
 
 
 def n_random(tier):
-    return 1000 if tier == "quick" else 60000
+    return 1000 if tier == "quick" else 8000
 
 
 def check(case):
